@@ -49,7 +49,7 @@ TERMS = {"G1": ["source", "drain"], "G2": ["source", "drain"], "G3": ["left", "r
 
 CURRENTS = {
     2: [[1, -1], [3, -3], [0.1, -0.1], [0.7, -0.7], "ramp", "sin", "switch", "switch_sparse"],
-    3: [[1, 2, -3], [0.1, 0.2, -0.3], [0, 2, -2], [0.7, 0.1, -0.8], "ramp", "sin", "switch", "switch_sparse"],
+    3: [[1, 2, -3], [0.1, 0.2, -0.3], [0, 2, -2], [0.7, 0.1, -0.8], "ramp", "sin", "switch", "switch_sparse", [2, -2, 0]],
     4: [[1, 2, -3, 0], [0.1, 0.2, 0.3, -0.6], [1, 1, 1, -3], [0.3, 0.3, 0.3, -0.9], "ramp", "sin", "switch", "switch_sparse"],
 }
 
@@ -94,6 +94,9 @@ def cases(tier, seed):
         cur = CURRENTS[len(TERMS[d])]
         for c, sc in itertools.product((cur[0], cur[1], cur[6]), (1e-9, 1e3) if not quick else (1e-9,)):
             out.append(dict(fam="run", dev=d, dens="coarse", cur=c, field="zero", adaptive=False, k=2, screening=False, units="um", seeded=False, cur_scale=sc))
+    # constant dicts that omit an idle terminal
+    out.append(dict(fam="run", dev="G3", dens="coarse", cur=[2, -2, 0], field="static", adaptive=False, k=2, screening=False, units="um", seeded=False, omit_idle=True))
+    out.append(dict(fam="run", dev="G4", dens="coarse", cur=[1, 2, -3, 0], field="static", adaptive=False, k=2, screening=False, units="um", seeded=False, omit_idle=True))
     # thermalisation: the recorded stage starts from a thermalised state, with step counter and clock restarted at 0
     for d in ("G1", "G3", "G4"):
         cur = CURRENTS[len(TERMS[d])]
@@ -130,7 +133,7 @@ def switch_pairs(n):
     return out
 
 
-def current_func(spec, names, base_scale=1.0):
+def current_func(spec, names, base_scale=1.0, omit_idle=False):
     """returns (argument for tdgl.solve, python function t -> dict) for a current spec"""
     n = len(names)
     base = {2: [2.0, -2.0], 3: [1.0, 2.0, -3.0], 4: [1.0, 2.0, -3.5, 0.5]}[n]
@@ -167,6 +170,10 @@ def current_func(spec, names, base_scale=1.0):
             return {k: v for k, v in full(t).items() if v != 0.0}
         return sparse, full
     d = {nm: base_scale * v for nm, v in zip(names, spec)}
+    if omit_idle:
+        # a constant dict that does not mention the idle terminal at all (an omitted terminal carries no current)
+        arg = {nm: v for nm, v in d.items() if v != 0}
+        return arg, (lambda t: d)
     return d, (lambda t: d)
 
 
@@ -206,7 +213,7 @@ def run_run(case):
     dev = zoo.device(case["dev"], density=case["dens"], units=case["units"], memo=(prior is None))
     names = TERMS[case["dev"]]
     cs = 0.25 * CURR_SCALE[case["units"]] * case.get("cur_scale", 1.0)  # the invariant is linear in the currents: keep the drive gentle
-    arg, func = current_func(case["cur"], names, cs)
+    arg, func = current_func(case["cur"], names, cs, omit_idle=bool(case.get("omit_idle")))
     fs = FIELD_SCALE[case["units"]]
     if case["field"] == "zero":
         A = 0.0
